@@ -366,8 +366,10 @@ def finish(ctx, aud, level="proof"):
     ev = {"property_id": ctx.prop, "tier": ctx.tier, "seed": ctx.seed, "level": level, "coverage": cov,
           "assumptions": ctx.assumptions, "wall_s": round(time.time() - ctx.t0, 2), "violations": len(new),
           "known_findings_hit": sorted(printed_known)}
-    os.makedirs(os.path.join(VERIF, "evidence"), exist_ok=True)
-    with open(os.path.join(VERIF, "evidence", ctx.prop + ".json"), "w") as fh:
+    # runs against a patched scratch checkout (tools/seedtest.py) must not overwrite the committed evidence
+    evdir = os.environ.get("VERIF_EVIDENCE_DIR") or os.path.join(VERIF, "evidence")
+    os.makedirs(evdir, exist_ok=True)
+    with open(os.path.join(evdir, ctx.prop + ".json"), "w") as fh:
         json.dump(ev, fh, indent=1, default=str)
     broken = [t for t in ties if not (t.get("generated") and t.get("tie_checks"))]
     for t in broken:
